@@ -14,11 +14,17 @@ Lines (tab separated):
   lend.init        <state>
   lend.op <name> args… <outcome> <state>                         -- outcome ∈ ok err err:basic panic
   lend.handover borrowId newInterest <outcome> <state>           -- the V2 liquidation hand-over (own trace kind: own call site)
-<state> := ctr(lendCtr,borrowCtr,blockTime)  L  B  S  K  P  F  AB  AL   (nine fields, records `|`-separated, record fields `:`-separated)
+  lend.close bidder borrowId paid recv left topUp <outcome> <state>  -- the closing bid of the V2 auction (MsgCloseDutchAuctionForBorrow)
+  lend.beginblock <outcome> <state>                              -- the x/lend block hook at a height divisible by 14400
+  lend.migrate pairs rates <outcome> <state>                     -- the store migration 2 → 3 ran: pairs `id:inter:eMode,…`, rates
+                                                                    `asset:stableOk:isolated:eLtv:ePenalty:ltv:cAsset:penalty,…` after it
+<state> := ctr(lendCtr,borrowCtr,blockTime)  L  B  S  K  P  F  AB  AL  R  V   (eleven fields, records `|`-separated, record fields `:`-separated)
   L id:owner:pool:asset:amountIn:avail:app
   B id:lendingId:pairId:inDenom:amountIn:outDenom:amountOut:interest:stable:liq:brDenom:bridged:reserveInt
-  S pool:asset:totalLend:totalBorrowed:totalStable:totalInterest
-  K acct:denom:amount        P asset:twa        F killedApps/depreciatedPools (comma lists)
+  S pool:asset:totalLend:totalBorrowed:totalStable:totalInterest:lendIds:borrowIds          (id lists `.`-separated)
+  R asset:reserve:buyback:outToLenders:outForAuction:inLiqPenalty:inRepayments:totalOutToLenders:funded   (all-zero records omitted)
+  V borrowId:owner:targetDebt:fee                                                          (locked vaults of handed-over borrows)
+  K acct:denom:amount        P asset:twa        F killedApps/depreciatedPools/pendingEntries/deletedPools (comma lists)
   AB id:globalIndex:reserveGlobalIndex:lastInteraction:stableRate      AL id:globalIndex:lastInteraction:rewardTracker   (accrual state)
 External inputs: a borrow accrual slot is `dI:dR:apr:rr` | `!:apr:rr` | `-`, a lend accrual slot `reward:apr`. The RATES (apr, rr) are what
 the model consumes: it recomputes the amounts and the indices with `Model/LendAccrual.lean` from its own accrual state and the block
@@ -26,8 +32,10 @@ time; the reported amounts are only cross-checked (DIFF `accrual`), the model's 
 state it derives is compared with the real records after every line (DIFF `accrual-state`).
 Hand-over: `borrowId newInterest apr:rr`.   The model is re-synchronised to the real state after every line.
 
-Monitors (evaluated on the REAL state projection): total_lend total_borrowed total_stable ltv ltv_exact pool_funds pledged_safe, and
-total_lend_orphaned. The three book monitors compare, per (pool, asset), the GAP between the published total and the sum over
+Monitors (evaluated on the REAL state projection): total_lend total_borrowed total_stable ltv ltv_exact pool_funds pledged_safe,
+total_lend_orphaned, ids_consistent (every pool-asset record lists exactly the ids of its live lends / borrows, in order), reserve_ledger
+(reserve module balance = genesis + recorded inflows − recorded outflows, per asset; `reserve_ledger_poolsweep` instead, on a block-hook
+line whose gap change is exactly the pool balances the hook swept into the reserve: finding), reserve_halves (ReserveAmount = BuybackAmount). The three book monitors compare, per (pool, asset), the GAP between the published total and the sum over
 positions before and after the line and fire when a gap changes to a non-zero value — so a mismatch that is already there (a known
 finding earlier in the history) neither repeats on later lines nor hides a new cause. `total_lend_orphaned` replaces `total_lend` on a
 hand-over line whose new gap is exactly what was left in the lend position the hand-over deleted (availableToBorrow + other open
@@ -43,6 +51,7 @@ structure St where
   accB : List AccB := []
   accL : List AccL := []
   now : Int := 0
+  bank0 : Bank := []          -- the genesis balances (the reserve ledger is relative to them)
 
 def init : St := {}
 
@@ -63,9 +72,25 @@ def parseBorrow (r : String) : Option Borrow :=
            amountOut := aOut, interest := int, stable := st != 0, liq := lq != 0, brDenom := bd.toNat, bridged := br, reserveInt := res }
   | _ => none
 
+def parseDots (s : String) : Option (List Nat) := (splitOnNE s ".").mapM parseNat?
+
 def parseStats (r : String) : Option Stats :=
+  match r.splitOn ":" with
+  | [p, a, tl, tb, ts, ti, li, bi] => do
+    pure { pool := (← parseNat? p), asset := (← parseNat? a), totalLend := (← parseInt? tl), totalBorrowed := (← parseInt? tb),
+           totalStable := (← parseInt? ts), totalInterest := (← parseInt? ti), lendIds := (← parseDots li), borrowIds := (← parseDots bi) }
+  | _ => none
+
+def parseResv (r : String) : Option Resv :=
   match (r.splitOn ":").mapM parseInt? with
-  | some [p, a, tl, tb, ts, ti] => some { pool := p.toNat, asset := a.toNat, totalLend := tl, totalBorrowed := tb, totalStable := ts, totalInterest := ti }
+  | some [a, rv, bb, ol, oa, ip, ir, to, fd] =>
+    some { asset := a.toNat, reserve := rv, buyback := bb, outLenders := ol, outAuction := oa, inPenalty := ip, inRepay := ir,
+           totalOutLenders := to, funded := fd }
+  | _ => none
+
+def parseLocked (r : String) : Option Locked :=
+  match (r.splitOn ":").mapM parseInt? with
+  | some [b, o, t, f] => some { borrowId := b.toNat, owner := o.toNat, target := t, fee := f }
   | _ => none
 
 def parseBal (r : String) : Option ((Nat × Nat) × Int) :=
@@ -80,7 +105,7 @@ def parsePrice (r : String) : Option (Nat × Nat) :=
 
 def parseState (f : List String) : Option State :=
   match f with
-  | [ctr, l, b, s, k, p, fl, _, _] => do
+  | [ctr, l, b, s, k, p, fl, _, _, rv, lv] => do
     let c ← parseNatList ctr
     let (lc, bc) ← match c with | [x, y, _] => some (x, y) | _ => none
     let ls ← (splitOnNE l "|").mapM parseLend
@@ -88,10 +113,14 @@ def parseState (f : List String) : Option State :=
     let ss ← (splitOnNE s "|").mapM parseStats
     let ks ← (splitOnNE k "|").mapM parseBal
     let ps ← (splitOnNE p "|").mapM parsePrice
-    let (kl, dp) ← match fl.splitOn "/" with
-      | [a, b] => do pure ((← parseNatList a), (← parseNatList b))
+    let (kl, dp, pend, del) ← match fl.splitOn "/" with
+      | [a, b] => do pure ((← parseNatList a), (← parseNatList b), [], [])
+      | [a, b, c, d] => do pure ((← parseNatList a), (← parseNatList b), (← parseNatList c), (← parseNatList d))
       | _ => none
-    pure { lends := ls, borrows := bs, stats := ss, bank := ks, lendCtr := lc, borrowCtr := bc, prices := ps, killed := kl, depPools := dp }
+    let rs ← (splitOnNE rv "|").mapM parseResv
+    let vs ← (splitOnNE lv "|").mapM parseLocked
+    pure { lends := ls, borrows := bs, stats := ss, bank := ks, lendCtr := lc, borrowCtr := bc, prices := ps, killed := kl, depPools := dp,
+           depPending := pend, delPools := del, resv := rs, locked := vs }
   | _ => none
 
 /-- reported outcome of one `IterateBorrow` plus the rates it used (`none` = not available) -/
@@ -134,7 +163,7 @@ def parseAccL (r : String) : Option AccL :=
 /-- block time and accrual state carried by a state projection -/
 def parseAcc (f : List String) : Option (Int × List AccB × List AccL) :=
   match f with
-  | [ctr, _, _, _, _, _, _, ab, al] => do
+  | [ctr, _, _, _, _, _, _, ab, al, _, _] => do
     let c ← parseIntList ctr
     let now ← match c with | [_, _, t] => some t | _ => none
     pure (now, (← (splitOnNE ab "|").mapM parseAccB), (← (splitOnNE al "|").mapM parseAccL))
@@ -188,9 +217,14 @@ def parseOp (name : String) (a : List String) : Option Op :=
     let t ← parseNat? twa
     pure (.setPrice (← parseNat? asset) (if t = 0 then none else some t))
   | "setKill", [app, on] => do pure (.setKill (← parseNat? app) (← parseBool? on))
-  | "setDepreciated", [pool] => do pure (.setDepreciated (← parseNat? pool))
+  | "setDepreciated", [pool] => do pure (.setDepreciated (← parseNat? pool) true)
+  | "setDepreciated", [pool, flag] => do pure (.setDepreciated (← parseNat? pool) (← parseBool? flag))
+  | "beginBlock", [] => pure .beginBlock
   | "handover", [id, ni, _] => do pure (.handover (← parseNat? id) (← parseInt? ni))
   | "handover", [id, ni] => do pure (.handover (← parseNat? id) (← parseInt? ni))
+  | "bid", [u, id, paid, recv] => do pure (.bid (← parseNat? u) (← parseNat? id) (← parseInt? paid) (← parseInt? recv))
+  | "auctionClose", [u, id, paid, recv, left, top] => do
+    pure (.auctionClose (← parseNat? u) (← parseNat? id) (← parseInt? paid) (← parseInt? recv) (← parseInt? left) (← parseInt? top))
   | _, _ => none
 
 /-! ### canonical form of a state (what is compared) -/
@@ -203,7 +237,11 @@ def sortBy {α} (lt : α → α → Bool) (l : List α) : List α := l.foldr (in
 def showLend (l : Lend) : String := s!"{l.id}:{l.owner}:{l.pool}:{l.asset}:{l.amountIn}:{l.avail}:{l.app}"
 def showBorrow (b : Borrow) : String :=
   s!"{b.id}:{b.lendingId}:{b.pairId}:{b.inDenom}:{b.amountIn}:{b.outDenom}:{b.amountOut}:{b.interest}:{b.stable}:{b.liq}:{b.brDenom}:{b.bridged}:{b.reserveInt}"
-def showStats (s : Stats) : String := s!"{s.pool}:{s.asset}:{s.totalLend}:{s.totalBorrowed}:{s.totalStable}:{s.totalInterest}"
+def showStats (s : Stats) : String :=
+  s!"{s.pool}:{s.asset}:{s.totalLend}:{s.totalBorrowed}:{s.totalStable}:{s.totalInterest}:{showNatList s.lendIds}:{showNatList s.borrowIds}"
+def showResv (r : Resv) : String :=
+  s!"{r.asset}:{r.reserve}:{r.buyback}:{r.outLenders}:{r.outAuction}:{r.inPenalty}:{r.inRepay}:{r.totalOutLenders}:{r.funded}"
+def showLocked (k : Locked) : String := s!"{k.borrowId}:{k.owner}:{k.target}:{k.fee}"
 
 structure Canon where
   ctr : String
@@ -213,11 +251,16 @@ structure Canon where
   bank : String
   prices : String
   flags : String
+  resv : String
+  locked : String
   deriving DecidableEq
 
-def canon (cfg : Cfg) (s : State) : Canon :=
+def canon (_cfg : Cfg) (s : State) : Canon :=
   let keys := (s.bank.map (·.1)).eraseDups
-  let bal := (keys.map fun k => (k, s.bank.get k.1 k.2)).filter fun e => e.2 != 0 && e.1.1 != cfg.auctionAcct
+  let bal := (keys.map fun k => (k, s.bank.get k.1 k.2)).filter fun e => e.2 != 0
+  -- one record per asset (first wins, as `getResv`), all-zero records dropped
+  let rassets := (s.resv.map (·.asset)).eraseDups
+  let rrecs := (rassets.map fun a => getResv s.resv a).filter fun r => r != { asset := r.asset }
   let bal := sortBy (fun a b => a.1.1 < b.1.1 || (a.1.1 == b.1.1 && a.1.2 < b.1.2)) bal
   { ctr := s!"{s.lendCtr},{s.borrowCtr}",
     lends := "|".intercalate ((sortBy (fun a b => a.id < b.id) s.lends).map showLend),
@@ -225,7 +268,10 @@ def canon (cfg : Cfg) (s : State) : Canon :=
     stats := "|".intercalate ((sortBy (fun a b => a.pool < b.pool || (a.pool == b.pool && a.asset < b.asset)) s.stats).map showStats),
     bank := "|".intercalate (bal.map fun e => s!"{e.1.1}:{e.1.2}:{e.2}"),
     prices := "|".intercalate ((sortBy (fun a b => a.1 < b.1) s.prices).map fun e => s!"{e.1}:{e.2}"),
-    flags := showNatList (sortBy (fun a b => a < b) s.killed.eraseDups) ++ "/" ++ showNatList (sortBy (fun a b => a < b) s.depPools.eraseDups) }
+    flags := showNatList (sortBy (fun a b => a < b) s.killed.eraseDups) ++ "/" ++ showNatList (sortBy (fun a b => a < b) s.depPools.eraseDups)
+             ++ "/" ++ showNatList s.depPending ++ "/" ++ showNatList (sortBy (fun a b => a < b) s.delPools.eraseDups),
+    resv := "|".intercalate ((sortBy (fun a b => a.asset < b.asset) rrecs).map showResv),
+    locked := "|".intercalate ((sortBy (fun a b => a.borrowId < b.borrowId) s.locked).map showLocked) }
 
 def diffCanon (m i : Canon) : List String :=
   (if m.ctr = i.ctr then [] else [s!"ctr model={m.ctr} impl={i.ctr}"]) ++
@@ -234,7 +280,9 @@ def diffCanon (m i : Canon) : List String :=
   (if m.stats = i.stats then [] else [s!"stats model={m.stats} impl={i.stats}"]) ++
   (if m.bank = i.bank then [] else [s!"bank model={m.bank} impl={i.bank}"]) ++
   (if m.prices = i.prices then [] else [s!"prices model={m.prices} impl={i.prices}"]) ++
-  (if m.flags = i.flags then [] else [s!"flags model={m.flags} impl={i.flags}"])
+  (if m.flags = i.flags then [] else [s!"flags model={m.flags} impl={i.flags}"]) ++
+  (if m.resv = i.resv then [] else [s!"resv model={m.resv} impl={i.resv}"]) ++
+  (if m.locked = i.locked then [] else [s!"locked model={m.locked} impl={i.locked}"])
 
 /-! ### monitors on the real state -/
 
@@ -554,6 +602,24 @@ def handleOp (st : St) (seq name : String) (args : List String) (outcome : Strin
     let mons := if outcome = "ok" then monitors st.cfg pre impl op else []
     let gl := gapChanged (lendGaps pre) (lendGaps impl)
     let lendName := if orphanedBy pre impl op then "total_lend_orphaned" else "total_lend"
+    -- id lists: a record whose lists are not the ids of its live positions (reported when the set of bad records changes)
+    let badIds (x : State) : List (Nat × Nat) := (x.stats.filter fun r =>
+        !(r.lendIds == lendIdsOf x.lends r.pool r.asset && r.borrowIds == borrowIdsOf st.cfg x.borrows r.pool r.asset)).map fun r => (r.pool, r.asset)
+    let idsBad := (badIds impl).any fun k => !(badIds pre).contains k
+    -- reserve ledger: balance of the reserve module account − genesis balance − flow recorded, per asset (gap changes are reported)
+    let resGaps (x : State) : List ((Nat × Nat) × Int) := (st.cfg.assets.map fun a =>
+        ((0, a.id), x.bank.get st.cfg.reserveAcct a.id - st.bank0.get st.cfg.reserveAcct a.id - (getResv x.resv a.id).flow)).filter fun e => e.2 != 0
+    -- the block hook sweeps a deleted pool's balances into the reserve without a flow record (finding): own monitor name when the
+    -- gaps moved by exactly what the DIFF-free model moved into the reserve
+    let sweepOnly : Bool := match op, step st.cfg pre op with
+      | .beginBlock, .ok m => st.cfg.assets.all fun a =>
+          ((resGaps impl).lookup (0, a.id)).getD 0 - ((resGaps pre).lookup (0, a.id)).getD 0
+            == m.bank.get st.cfg.reserveAcct a.id - pre.bank.get st.cfg.reserveAcct a.id
+      | _, _ => false
+    let ledgerName := if sweepOnly then "reserve_ledger_poolsweep" else "reserve_ledger"
+    let mons := mons ++ (if idsBad then ["ids_consistent"] else [])
+                     ++ (if gapChanged (resGaps pre) (resGaps impl) then [ledgerName] else [])
+                     ++ (if !decide (HalvesEq impl) && decide (HalvesEq pre) then ["reserve_halves"] else [])
     let mons := mons ++ (if gl then [lendName] else [])
                      ++ (if gapChanged (borGaps st.cfg false pre) (borGaps st.cfg false impl) then ["total_borrowed"] else [])
                      ++ (if gapChanged (borGaps st.cfg true pre) (borGaps st.cfg true impl) then ["total_stable"] else [])
@@ -562,9 +628,9 @@ def handleOp (st : St) (seq name : String) (args : List String) (outcome : Strin
 
 def opLine (st : St) (seq name : String) (rest : List String) : St × List String :=
   let n := rest.length
-  if n < 10 then (st, [s!"BAD\t{seq}\top fields"]) else
-  let args := rest.take (n - 10)
-  match rest.drop (n - 10) with
+  if n < 12 then (st, [s!"BAD\t{seq}\top fields"]) else
+  let args := rest.take (n - 12)
+  match rest.drop (n - 12) with
   | outcome :: implF => handleOp st seq name args outcome implF
   | [] => (st, [s!"BAD\t{seq}\top fields"])
 
@@ -579,11 +645,12 @@ def handle (st : St) (seq : String) (f : List String) : St × List String :=
     match parseNat? id, parseInt? dec with
     | some id, some dec => ({ st with cfg := { st.cfg with assets := st.cfg.assets ++ [{ id := id, decimals := dec }] } }, [])
     | _, _ => bad "cfg.asset"
-  | ["lend.cfg.rates", a, ltv, eltv, c, iso, stb] =>
-    match parseNat? a, parseInt? ltv, parseInt? eltv, parseNat? c, parseBool? iso, parseBool? stb with
-    | some a, some ltv, some eltv, some c, some iso, some stb =>
-      ({ st with cfg := { st.cfg with rates := st.cfg.rates ++ [{ asset := a, ltv := ltv, eLtv := eltv, cAsset := c, isolated := iso, stableOk := stb }] } }, [])
-    | _, _, _, _, _, _ => bad "cfg.rates"
+  | ["lend.cfg.rates", a, ltv, eltv, c, iso, stb, pen, epen] =>
+    match parseNat? a, parseInt? ltv, parseInt? eltv, parseNat? c, parseBool? iso, parseBool? stb, parseInt? pen, parseInt? epen with
+    | some a, some ltv, some eltv, some c, some iso, some stb, some pen, some epen =>
+      ({ st with cfg := { st.cfg with rates := st.cfg.rates ++ [{ asset := a, ltv := ltv, eLtv := eltv, cAsset := c, isolated := iso, stableOk := stb,
+                                                                  liqPenalty := pen, eLiqPenalty := epen }] } }, [])
+    | _, _, _, _, _, _, _, _ => bad "cfg.rates"
   | ["lend.cfg.pool", id, acct, ds] =>
     match parseNat? id, parseNat? acct, (splitOnNE ds ",").mapM parsePoolAsset with
     | some id, some acct, some ds => ({ st with cfg := { st.cfg with pools := st.cfg.pools ++ [{ id := id, acct := acct, assets := ds }] } }, [])
@@ -605,13 +672,50 @@ def handle (st : St) (seq : String) (f : List String) : St × List String :=
     match parseState rest with
     | some s =>
       -- the model's genesis must be the real genesis: zero totals for every (pool, asset)
-      let g := { Comdex.Lend.init st.cfg s.bank s.prices with killed := s.killed, depPools := s.depPools }
+      let g := { Comdex.Lend.init st.cfg s.bank s.prices with killed := s.killed, depPools := s.depPools, depPending := s.depPending, delPools := s.delPools }   -- no ids, no reserve records, no locked vaults
       let d := (diffCanon (canon st.cfg g) (canon st.cfg s)).map fun x => s!"DIFF\t{seq}\tinit\t{x}"
       match parseAcc rest with
-      | some (now, ab, al) => ({ st with s := s, accB := ab, accL := al, now := now }, d)
-      | none => ({ st with s := s }, d)
+      | some (now, ab, al) => ({ st with s := s, accB := ab, accL := al, now := now, bank0 := s.bank }, d)
+      | none => ({ st with s := s, bank0 := s.bank }, d)
     | none => bad "init state"
   | "lend.handover" :: rest => opLine st seq "handover" rest
+  | "lend.close" :: rest => opLine st seq "auctionClose" rest
+  | "lend.beginblock" :: rest => opLine st seq "beginBlock" rest
+  | "lend.migrate" :: pairs :: rates :: outcome :: implF =>
+    -- the store migration 2 → 3: the configuration changes, the state must not
+    match parseState implF, parseAcc implF with
+    | some impl, some (now, implB, implL) =>
+      let newCfg := migrateCfg st.cfg
+      let showPairs (c : Cfg) : String := ",".intercalate (c.pairs.map fun p => s!"{p.id}:{p.inter}:{p.eMode}")
+      let showRates (c : Cfg) : String := ",".intercalate (c.rates.map fun r => s!"{r.asset}:{r.stableOk}:{r.isolated}:{r.eLtv}:{r.eLiqPenalty}:{r.ltv}:{r.cAsset}:{r.liqPenalty}")
+      let d1 := if outcome = "ok" then [] else [s!"DIFF\t{seq}\tmigrate\tmodel=ok impl={outcome}"]
+      let d2 := (if showPairs newCfg = pairs then [] else [s!"DIFF\t{seq}\tmigrate\tpairs model={showPairs newCfg} impl={pairs}"]) ++
+                (if showRates newCfg = rates then [] else [s!"DIFF\t{seq}\tmigrate\trates model={showRates newCfg} impl={rates}"])
+      let d3 := (diffCanon (canon st.cfg st.s) (canon st.cfg impl)).map fun d => s!"DIFF\t{seq}\tmigrate\tmigration changed state: {d}"
+      let spec := migrateCfgSpec st.cfg
+      let m1 := if showPairs spec = pairs && showRates spec = rates then [] else [s!"MON\t{seq}\tmigration_leak\tmigrate"]
+      -- the book identities under the migrated configuration
+      let badIds := impl.stats.any fun r =>
+        !(r.lendIds == lendIdsOf impl.lends r.pool r.asset && r.borrowIds == borrowIdsOf newCfg impl.borrows r.pool r.asset)
+      let m2 := (if badIds && decide (IdsOk st.cfg st.s) then [s!"MON\t{seq}\tids_consistent\tmigrate"] else []) ++
+                (if gapChanged (borGaps st.cfg false st.s) (borGaps newCfg false impl) then [s!"MON\t{seq}\ttotal_borrowed\tmigrate"] else []) ++
+                (if gapChanged (borGaps st.cfg true st.s) (borGaps newCfg true impl) then [s!"MON\t{seq}\ttotal_stable\tmigrate"] else [])
+      -- re-synchronise the configuration to the real one (as the state is): a disagreement is reported once, on this line
+      let pflags : List (Nat × Bool × Bool) := (splitOnNE pairs ",").filterMap fun x => match x.splitOn ":" with
+        | [i, a, b] => (parseNat? i).map fun i => (i, a == "true", b == "true")
+        | _ => none
+      let rflags : List (Nat × Bool × Bool × Int × Int) := (splitOnNE rates ",").filterMap fun x => match x.splitOn ":" with
+        | [i, a, b, el, ep, _, _, _] => do pure ((← parseNat? i), a == "true", b == "true", (← parseInt? el), (← parseInt? ep))
+        | _ => none
+      let realCfg : Cfg := { newCfg with
+        pairs := newCfg.pairs.map fun p => match pflags.lookup p.id with
+          | some (i, e) => { p with inter := i, eMode := e }
+          | none => p,
+        rates := newCfg.rates.map fun r => match rflags.lookup r.asset with
+          | some (so, iso, el, ep) => { r with stableOk := so, isolated := iso, eLtv := el, eLiqPenalty := ep }
+          | none => r }
+      ({ st with cfg := realCfg, s := impl, accB := implB, accL := implL, now := now }, d1 ++ d2 ++ d3 ++ m1 ++ m2)
+    | _, _ => bad "migrate state"
   | "lend.op" :: name :: rest => opLine st seq name rest
   | _ => bad "unknown lend line"
 
